@@ -565,8 +565,57 @@ def _check_counter_guard(ctx: Ctx, rid: str, drv, sdg, s, evs, i, cg):
 
 def r11_4_restore(ctx: Ctx):
     from .c03 import restore_typestate, r_link_private
-    restore_typestate(ctx, 'R11.4')
-    r_link_private(ctx)
+    fv = ctx.full_view()
+    restore_typestate(fv, 'R11.4')
+    r_link_private(fv)
+    restore_resets_queue(fv, 'R11.4')
+
+
+def restore_resets_queue(ctx, rid: str):
+    """A state-restoring entry point that replaces the list of trials also re-establishes the characteristics queue
+    (clears / refills / replaces it): otherwise intervals of the discarded continuation stay queued, and a trial
+    placed in one of them is linked between records that are no longer in the list."""
+    roles = C.roles_of(ctx)
+    others = roles.other_entry_points()
+    if not others:
+        return
+    sdc = ctx.ix.cls('SearchData')
+    qc = ctx.ix.find_cls('CharacteristicsQueue')
+    resetters = {roles.fq(f) for n_ in ('ClearQueue', 'RefillQueue') for f in roles.sd_method(n_)}
+    for ep in others:
+        reach = ctx.pta.reachable([ep], stop=None) | {roles.fq(ep)}
+        replaces = resets = False
+        for m in roles.mutations():
+            if roles.fq(m.func) not in reach or m.init_self:
+                continue
+            on_sd = any(o.cls is not None and o.cls.is_subclass_of(sdc) for o in m.bases)
+            if m.kind in ('attr', 'aug') and on_sd and isinstance(m.field, str) and \
+                    ('allTrials' in m.field or 'firstDataItem' in m.field):
+                replaces = True
+            if m.kind == 'mutcall' and isinstance(m.base_expr, ast.Attribute) and 'allTrials' in m.base_expr.attr and \
+                    m.field in ('clear', 'extend', 'append', '__setitem__', 'insert'):
+                replaces = True
+            if m.kind in ('attr',) and on_sd and isinstance(m.field, str) and 'Queue' in m.field:
+                resets = True          # the queue object itself is replaced
+            if qc is not None and m.kind in ('attr',) and \
+                    any(o.cls is not None and o.cls.is_subclass_of(qc) for o in m.bases):
+                resets = True          # the wrapper's base queue is replaced (entries installed into a new queue)
+            if m.kind == 'extcall' and m.field == 'clear' and \
+                    any(o.kind == 'ext' and o.extra and o.extra[0] == 'xcls' and 'DEPQ' in str(o.extra[1])
+                        for o in m.bases):
+                resets = True          # emptied before the saved entries are inserted
+        if qc is not None and qc.lookup('Clear') is not None:
+            resetters = resetters | {roles.fq(qc.lookup('Clear'))}
+        if reach & resetters:
+            resets = True
+        if not replaces:
+            continue
+        ctx.check(resets, rid, ep.short, ep.loc(),
+                  f'{ep.short} replaces the trials and re-establishes the characteristics queue',
+                  f'{ep.short} replaces the list of trials but leaves the characteristics queue as it was: intervals of '
+                  f'the discarded state stay queued, and the next trial placed in one of them is linked between records '
+                  f'that are no longer part of the search data', key=f'{rid}::{ep.short}::restore-leaves-queue',
+                  detail={'decidable': True})
 
 
 def _is_listener_loop(ctx, drv, ev) -> bool:
